@@ -23,9 +23,31 @@ Definition sbox_def (a : N) : N :=
 Definition sbox_table : list N := Eval vm_compute in map (fun i => sbox_def (N.of_nat i)) (seq 0 256).
 Definition mul2_table : list N := Eval vm_compute in map (fun i => gmul 2 (N.of_nat i)) (seq 0 256).
 Definition mul3_table : list N := Eval vm_compute in map (fun i => gmul 3 (N.of_nat i)) (seq 0 256).
-Definition sbox (a : N) : N := nth (N.to_nat a) sbox_table 0.
-Definition mul2 (a : N) : N := nth (N.to_nat a) mul2_table 0.
-Definition mul3 (a : N) : N := nth (N.to_nat a) mul3_table 0.
+(* table lookups through a depth-8 binary tree (8 steps instead of a list walk) *)
+Inductive tree := Leaf (v : N) | Node (l r : tree).
+Fixpoint build (depth : nat) (l : list N) : tree :=
+  match depth with
+  | O => Leaf (hd 0 l)
+  | S d => let h := Nat.pow 2 d in Node (build d (firstn h l)) (build d (skipn h l))
+  end.
+Fixpoint tget (depth : nat) (t : tree) (i : N) : N :=
+  match t with
+  | Leaf v => v
+  | Node l r => match depth with
+                | O => 0
+                | S d => if N.testbit i (N.of_nat d) then tget d r i else tget d l i
+                end
+  end.
+Definition sbox_tree : tree := Eval vm_compute in build 8 sbox_table.
+Definition mul2_tree : tree := Eval vm_compute in build 8 mul2_table.
+Definition mul3_tree : tree := Eval vm_compute in build 8 mul3_table.
+Definition sbox (a : N) : N := tget 8 sbox_tree a.
+Definition mul2 (a : N) : N := tget 8 mul2_tree a.
+Definition mul3 (a : N) : N := tget 8 mul3_tree a.
+Lemma trees_are_tables :
+  map sbox (map N.of_nat (seq 0 256)) = sbox_table /\ map mul2 (map N.of_nat (seq 0 256)) = mul2_table
+  /\ map mul3 (map N.of_nat (seq 0 256)) = mul3_table.
+Proof. vm_compute. repeat split; reflexivity. Qed.
 
 (* state: 16 bytes, column-major as in FIPS 197 *)
 Definition sub_bytes (s : list N) := map sbox s.
